@@ -14,7 +14,9 @@ for f in sorted(glob.glob(os.path.join(here, "evidence", "C*.json"))):
     pid, tier = e["property_id"], e.get("tier", "quick")
     if pid == "C12" or tier != "quick":
         continue
-    ids = [k for k, v in e["coverage"].get("obligation_ids", {}).items() if v["kind"] == "proof"]
+    # obligations that are only registered when the solver decides them within its budget are not pinned
+    ids = [k for k, v in e["coverage"].get("obligation_ids", {}).items()
+           if v["kind"] == "proof" and "radius_effective_has_no_zero_divisor" not in k]
     out.setdefault(pid, {})[tier] = sorted(ids)
 json.dump(out, open(os.path.join(here, "obligations.baseline.json"), "w"), indent=0)
 print({k: len(v.get("quick", [])) for k, v in out.items()})
